@@ -10,7 +10,8 @@ R-STREAM-CAP  (a) a declared message / frame length taken from the stream (resul
               (b) the handshake line buffer: coap_ws_rd_http_header compares the fill level with the buffer size
               and the exceeding arm returns 0 (which makes coap_ws_read() disconnect).
 """
-from core.prog import strip, walk, ap, key, short, const_int
+import collections
+from core.prog import strip, walk, ap, key, short, const_int, callee_field
 from core.psts import Env, solve, relevance, apply_generic, INF
 
 COUNTERS = {'partial_read', 'partial_write', 'hdr_ofs', 'http_ofs', 'data_ofs'}
@@ -808,3 +809,112 @@ def run_unit_complete(run, P, fname='coap_read_session', buf_field='read_header'
                                   'called while those bytes of the header may not have arrived' %
                                   (t['fn'], buf_field, short(L)[:40], short(cond)[:50], ', '.join(names.get(m, m) for m in missing)), [])
     run.require(n >= 1 or run.fixture_mode or run.cfg != 'base', 'R-STREAM-ADV(unit complete): no parser call on %s found in %s()' % (buf_field, fname))
+
+
+def run_phase_local(run, P):
+    """R-STREAM-ADV (phase-local value): a reader that is re-entered until a unit is complete keeps what it learnt in an earlier call in the
+    session's record, not in its locals.  Pattern, computed over the functions that read through a layer read slot: a local V with a constant initialiser whose every assignment
+    lies under one common branch arm C (the phase in which the header is parsed) and which is stored into a record field there (`X->f = V`:
+    the field is the carrier across calls).  Outside C -- in code a later call reaches with the phase already done -- V still holds its
+    initialiser; a read of V there (an argument, a right-hand side, a condition) uses the default where the carried field was meant:
+    coap_ws_read() unmasking `bytes_size` (0 in every call but the one that parsed the frame header) instead of ws->data_size bytes
+    hands up a still-masked payload whenever a frame arrives in more than one piece.  Address-taken locals are not judged."""
+    from core.prog import transitive_control_deps, succs
+    run.rule('R-STREAM-ADV')
+    n = 0
+    for f in sorted(P.lib_funcs(), key=lambda f: f['name']):
+        inits = {}
+        taken = set()
+        for b, ev in P.events(f):
+            t = ev['e']
+            if t.get('k') == 'decl':
+                for d in t['d']:
+                    if d.get('init') is not None and const_int(d['init']) is not None and not d.get('alen'):
+                        inits['v%s' % d['id']] = (d['n'], const_int(d['init']))
+            for x in walk(t):
+                if isinstance(x, dict) and x.get('k') == 'un' and x.get('op') == '&' and ap(x.get('e')):
+                    taken.add(ap(x['e']))
+        inits = dict((k, v) for k, v in inits.items() if k not in taken)
+        # readers only: functions that pull bytes through a layer read slot and are re-entered until a unit is complete
+        if not inits or not any(isinstance(x, dict) and x.get('k') == 'call' and callee_field(x) in READ_FIELDS for b, ev in P.events(f) for x in walk(ev['e'])):
+            continue
+        asg = collections.defaultdict(list)
+        stores = collections.defaultdict(list)
+        uses = collections.defaultdict(list)
+        compound = set()
+
+        def reads(t):
+            return [ap(x) for x in walk(t) if isinstance(x, dict) and x.get('k') == 'var' and ap(x) in inits]
+        for b in f['blocks']:
+            for ev in b['elems']:
+                t = ev['e']
+                if not ev.get('top', True):
+                    continue
+                if t.get('k') == 'asg' and ap(t['l']) in inits:
+                    asg[ap(t['l'])].append(b['id'])
+                    if t.get('op') != '=':
+                        compound.add(ap(t['l']))
+                if t.get('k') == 'un' and t.get('op') in ('++', '--', 'post++', 'post--') and ap(t.get('e')) in inits:
+                    asg[ap(t['e'])].append(b['id'])
+                    compound.add(ap(t['e']))
+                if t.get('k') == 'asg' and t.get('op') == '=':
+                    l, r = strip(t['l']), strip(t['r'])
+                    while isinstance(r, dict) and r.get('k') == 'cast':
+                        r = strip(r['e'])
+                    if isinstance(l, dict) and l.get('k') == 'mem' and l.get('arrow') and isinstance(r, dict) and r.get('k') == 'var' and ap(r) in inits:
+                        stores[ap(r)].append((b['id'], short(l), ap(l.get('b'))))
+                part = t['r'] if t.get('k') == 'asg' and t.get('op') == '=' else t
+                if t.get('k') == 'call' and (t.get('fn') or '').startswith('coap_log'):
+                    continue
+                for v in reads(part):
+                    uses[v].append((b['id'], ev['loc'], short(t)[:60], b['elems'].index(ev)))
+            c = (b.get('term') or {}).get('cond')
+            if c is not None:
+                for v in reads(c):
+                    uses[v].append((b['id'], (b['term'].get('loc') or f['loc']), short(c)[:60], len(b['elems'])))
+        for v in sorted(inits):
+            if not asg[v] or not stores[v]:
+                continue
+            common = None
+            for bid in asg[v]:
+                d = set(transitive_control_deps(f, bid))
+                common = d if common is None else common & d
+            if not common or v in compound:
+                continue
+            # the phase test: a branch all assignments depend on whose condition reads a field of the record the value is stored into
+            bases = set(sb_ for _b, _s, sb_ in stores[v])
+            phase = [c_ for (c_, _i) in common if any(isinstance(x, dict) and x.get('k') == 'mem' and x.get('arrow') and ap(x.get('b')) in bases
+                                                      for x in walk((f['B'][c_].get('term') or {}).get('cond') or {}))]
+            if not phase:
+                continue
+            # blocks reachable from the entry without passing an assignment to V: there V may still hold its initialiser
+            first_asg = {}
+            for b in f['blocks']:
+                for i_, ev in enumerate(b['elems']):
+                    t = ev['e']
+                    if ev.get('top', True) and ((t.get('k') == 'asg' and ap(t['l']) == v) or
+                                                (t.get('k') == 'un' and t.get('op') in ('++', '--', 'post++', 'post--') and ap(t.get('e')) == v)):
+                        first_asg.setdefault(b['id'], i_)
+            reach = set()
+            work = [f['entry']]
+            while work:
+                x = work.pop()
+                if x in reach:
+                    continue
+                reach.add(x)
+                if x in first_asg:
+                    continue                     # the paths through this block leave it with V assigned
+                work.extend(succs(f['B'][x]))
+            n += 1
+            field = [s_ for sb, s_, _x in stores[v]][0]
+            run.instance('R-STREAM-ADV', '%s: local %s is only read where it was assigned in this call (carried across calls by %s)' % (f['name'], inits[v][0], field))
+            seen = set()
+            for ub, loc, txt, idx in uses[v]:
+                ok = ub not in reach or (ub in first_asg and idx > first_asg[ub])
+                run.oblige('R-STREAM-ADV', ok, '%s:%s:phase-local-read-in-phase' % (f['name'], inits[v][0]))
+                if not ok and loc not in seen:
+                    seen.add(loc)
+                    run.violation('R-STREAM-ADV', f['name'], loc, 'phase-local-read-outside-phase:%s' % inits[v][0],
+                                  '`%s` reads the local %s on a path that has not assigned it in this call: a call that enters with that phase already done finds the '
+                                  'initialiser %d there, the value learnt in the earlier call lives in %s' % (txt, inits[v][0], inits[v][1], field), [])
+    run.require(n >= 1 or run.fixture_mode or run.cfg != 'base', 'R-STREAM-ADV(phase-local): no local that is assigned in one phase and stored into a record field found (expected coap_ws_read: bytes_size)')
